@@ -32,6 +32,9 @@ def run(ctx, rep):
                    "parameter (copy(), to_simulation_setting(), generation settings): the setting that is stored / re-estimated from is the "
                    "setting that was run", floor=20)
     _h8(ctx, rep)
+    rep.rule("H9", "checks and simulations that compute one value per sample size / repetition collect it inside the loop that computes it "
+                   "(a list created before the loop and filled after it keeps the last value only)", floor=3)
+    _h9(ctx, rep)
     rep.stats["seed_sinks"] = sorted("%s(%s)" % (q.split(".")[-1], p) for q, p in sd.sinks)[:60]
     _h1_h2(ctx, rep, sd)
     _h3(ctx, rep, sd)
@@ -280,6 +283,23 @@ def _compose_sides(f: Func, base_names):
             else:
                 out[n] = "?"
     return out
+
+
+def _h9(ctx, rep):
+    """a verdict / estimate computed once per sample size (or per repetition) is collected inside the loop that computes it"""
+    from ..loops import per_iteration_results
+    n = 0
+    for f, lp, L, where in per_iteration_results(ctx, ("quara.data_analysis", "quara.simulation")):
+        con = "%s: per-iteration values collected in `%s`" % (f.name, L)
+        if where == "inside":
+            n += 1
+            rep.holds("H9", f, con, "appended inside the loop", node=lp, nontrivial=False)
+        else:
+            n += 1
+            rep.violation("H9", f, con, "`%s` is created before the loop and filled only AFTER it, with a value the loop computes in every iteration: only the "
+                                        "last iteration's value is kept (a violation at an earlier sample size / repetition is dropped from the verdict)" % L, node=lp)
+    if n == 0:
+        rep.undecided("H9", "quara.data_analysis", "collections", "no per-iteration collection found")
 
 
 def _h6(ctx, rep):
